@@ -207,7 +207,20 @@ def Cert.payload (net : Nat) (c : Cert) : Payload :=
 inductive VErr where
   | instance | badChain | emptyChain | baseMismatch | scale | signerBits | signerRange | signerZero
   | noQuorum | badSig | diff (e : DiffErr) | cidMismatch
+  /-- the signer list is not strictly increasing. NOT an error of the Go code: `cert.Signers` is a
+  bitfield (a *set*), and `Signers.ForEach` yields the set bits in strictly increasing order, so a list
+  with a repeated or out-of-order index is not an input the Go code can see. The model's certificate
+  carries an arbitrary `List Nat`, so it has to refuse the lists that are no bitfield (see
+  `increasing`, `verifySig`); this branch is unreachable from every decoded certificate. -/
+  | signerOrder
 deriving DecidableEq, Repr
+
+/-- "this list is the iteration of a bitfield": strictly increasing (hence duplicate-free). Every
+list `Signers.ForEach` can produce satisfies it. -/
+def increasing : List Nat → Bool
+  | [] => true
+  | [_] => true
+  | a :: b :: rest => decide (a < b) && increasing (b :: rest)
 
 /-- the `Signers.ForEach` callback: range check, zero scaled power check, sum -/
 def checkSigners (sc : List Nat) : List Nat → Int → Except VErr Int
@@ -223,7 +236,14 @@ def keyAt (t : Table) (i : Nat) : Nat := (t.getD i default).key
 def expectedSig (net : Nat) (t : Table) (c : Cert) (ss : List Nat) : SigTok :=
   .agg (ss.map (fun i => (i, keyAt t i))) (c.payload net)
 
-/-- `verifyFinalityCertificateSignature` -/
+/-- `verifyFinalityCertificateSignature`.
+
+The signers of a Go certificate are a bitfield, i.e. a set of table indices which `ForEach` visits in
+strictly increasing order; the model's `signers` is a list. To make the model mirror exactly what Go
+can see, a list that is not strictly increasing (a repeated signer would otherwise be *counted twice*
+towards the quorum) is rejected with the dedicated error `signerOrder`. A decoded bitfield is always
+strictly increasing, so this branch is unreachable from the Go code and no Go error corresponds to it
+(the log parser `F3.Certs.Parse.signers?` refuses such lines as unparseable for the same reason). -/
 def verifySig (net : Nat) (t : Table) (c : Cert) : Except VErr Unit :=
   match Power.scaled (t.map (·.power)) with
   | none => .error .scale
@@ -231,7 +251,8 @@ def verifySig (net : Nat) (t : Table) (c : Cert) : Except VErr Unit :=
     match c.signers with
     | none => .error .signerBits
     | some ss =>
-      match checkSigners sc ss 0 with
+      if !(increasing ss) then .error .signerOrder
+      else match checkSigners sc ss 0 with
       | .error e => .error e
       | .ok p =>
         if !(Gen.isStrongQuorum p tot) then .error .noQuorum
@@ -306,6 +327,7 @@ def certValidB (net : Nat) (t : Table) (next : Nat) (base : Option Tip) (c : Cer
   !(baseMismatch base c.chain) &&
   (match Power.scaled (t.map (·.power)), c.signers with
     | some (sc, tot), some ss =>
+      increasing ss &&
       ss.all (fun i => decide (i < t.length) && decide (0 < sc.getD i 0)) &&
       Spec.Quorum.strong (sumScaled sc ss) tot &&
       c.sig == .agg (ss.map (fun i => (i, keyAt t i))) ⟨net, c.inst, 0, decidePhase, c.comm, c.pt, c.chain⟩
